@@ -349,6 +349,8 @@ def parse_stmt(st):
             if k is not None and rhs.endswith(')'):
                 callee, args = rhs[:k].strip(), rhs[k + 1:-1]
                 return ('call', dst, callee, split_top(args), ret)
+    m = re.match(r'^(.+?) = ([\w:<>]+(?:::<.*>)?)\((.*)\) -> (?:unwind )?bb\d+;$', st, re.S)
+    if m and balanced(m.group(3)): return ('call', m.group(1).strip(), m.group(2).strip(), split_top(m.group(3)), None)
     m = re.match(r'^(.+?) = (.*);$', st, re.S)
     if m: return ('assign', m.group(1).strip(), m.group(2).strip())
     return ('unknown', st)
